@@ -269,11 +269,14 @@ def _write_events(ctx: Ctx, wire: Wire, fn: FuncInfo, p: Path) -> List[int]:
         node = ev.node if ev.kind == "call" else ev.node.value
         if not isinstance(node, ast.Call):
             continue
-        k = wire.site_kind(fn, node)
+        if ev.kind == "call" and i + 1 < len(p.events) and p.events[i + 1].kind == "enter" and p.events[i + 1].node is node:
+            continue      # a helper spliced into the path: its own events are judged, with the facts established inside it
+        cur = p.fn_at(i, fn)
+        k = wire.site_kind(cur, node)
         if k is not None and k[0] != "read":
             out.append(i)
             continue
-        ct = res.resolve_call(node, fn)
+        ct = res.resolve_call(node, cur)
         if any(wire.reaches_write(c) for c in ct.funcs):
             # creating a coroutine is no effect; the await is (both events exist for awaited calls: count once, at the call)
             if ev.kind == "call":
@@ -287,7 +290,9 @@ def _request_events(ctx: Ctx, fn: FuncInfo, p: Path) -> List[int]:
     out = []
     for i, ev in enumerate(p.events):
         if ev.kind == "call" and isinstance(ev.node, ast.Call):
-            ct = res.resolve_call(ev.node, fn)
+            if i + 1 < len(p.events) and p.events[i + 1].kind == "enter" and p.events[i + 1].node is ev.node:
+                continue
+            ct = res.resolve_call(ev.node, p.fn_at(i, fn))
             if any(rfs in res.reachable([c]) for c in ct.funcs):
                 out.append(i)
     return out
